@@ -373,34 +373,36 @@ class Crazyflie():
             raise Exception('Data part of packet is too large')
 
         self._send_lock.acquire()
-        # close_link() and the link error callback reset self.link without taking the send lock: use one
-        # reference for the check and the calls below
-        link = self.link
-        if link is not None:
-            if len(expected_reply) > 0 and not resend and \
-                    link.needs_resending:
-                pattern = (pk.header,) + expected_reply
-                logger.debug(
-                    'Sending packet and expecting the %s pattern back',
-                    pattern)
-                self._start_answer_timer(pk, pattern, timeout)
-            elif resend:
-                # Check if we have gotten an answer, if not try again
-                pattern = expected_reply
-                pending = self._answer_patterns.get(pattern)
-                if pending is None or (_retry_timer is not None and
-                                       pending is not _retry_timer):
-                    # Answered, replaced by a newer request or the link was
-                    # closed since the timer was started: nothing to resend
-                    logger.debug('Resend requested, but no pattern found: %s',
-                                 self._answer_patterns)
-                    self._send_lock.release()
-                    return
-                logger.debug('We want to resend and the pattern is there')
-                self._start_answer_timer(pk, pattern, timeout)
-            link.send_packet(pk)
-            self.packet_sent.call(pk)
-        self._send_lock.release()
+        try:
+            # close_link() and the link error callback reset self.link without taking the send lock: use one
+            # reference for the check and the calls below
+            link = self.link
+            if link is not None:
+                if len(expected_reply) > 0 and not resend and \
+                        link.needs_resending:
+                    pattern = (pk.header,) + expected_reply
+                    logger.debug(
+                        'Sending packet and expecting the %s pattern back',
+                        pattern)
+                    self._start_answer_timer(pk, pattern, timeout)
+                elif resend:
+                    # Check if we have gotten an answer, if not try again
+                    pattern = expected_reply
+                    pending = self._answer_patterns.get(pattern)
+                    if pending is None or (_retry_timer is not None and
+                                           pending is not _retry_timer):
+                        # Answered, replaced by a newer request or the link was
+                        # closed since the timer was started: nothing to resend
+                        logger.debug('Resend requested, but no pattern found: %s',
+                                     self._answer_patterns)
+                        return
+                    logger.debug('We want to resend and the pattern is there')
+                    self._start_answer_timer(pk, pattern, timeout)
+                link.send_packet(pk)
+                self.packet_sent.call(pk)
+        finally:
+            # also when the driver or a packet_sent callback raises
+            self._send_lock.release()
 
     def is_called_by_incoming_handler_thread(self):
         return current_thread() == self.incoming
